@@ -96,15 +96,15 @@ type node struct {
 	pxSrv   *httptest.Server
 	w       *World
 	promTs  []*pscrape.Target
-	last    map[uint64]int64 // last scraped kept-sample count per target
+	last    map[uint64]int64    // last scraped kept-sample count per target
 	linger  map[uint64][2]int64 // removed targets: [series, rounds left]
-	readyIn int              // cycles until the pod is ready
-	gen     int              // creation counter: tells a re-created pod from its predecessor
+	readyIn int                 // cycles until the pod is ready
+	gen     int                 // creation counter: tells a re-created pod from its predecessor
 	// faults armed for the current cycle
-	dropPost, loseAck     bool
-	failStatus, failRT    int // cycles left
-	unready               int
-	staleHash             int
+	dropPost, loseAck  bool
+	failStatus, failRT int // cycles left
+	unready            int
+	staleHash          int
 }
 
 func (n *node) head() int64 {
